@@ -2519,7 +2519,7 @@ def stress_loads(ctx, only=None):
     import time
     seed = ctx.seed % 1000 if only is None else only['seed']
     t0 = time.time()
-    budget = ctx.scale(7.0, 120.0)
+    budget = ctx.scale(5.0, 120.0)
     for scaled in (False, True):
         nm = 'unscaled_weights' if scaled else 'weights'
         if only is not None and only['scaled'] != scaled:
@@ -2650,7 +2650,7 @@ def run(ctx):
                 ctx.disagree('what=single_thread_load;symptom=open_hangs', dict(site=site, schedule=[]), str(e), None,
                              'opening a v4 data set with applycal and computing one block from ONE thread does not return')
         elif site.startswith('kernel_lines'):
-            run_site(ctx, site, make, files, n=ctx.scale(8, 120), length=1500, cap=ctx.scale(24, 400), read_cap=0)
+            run_site(ctx, site, make, files, n=ctx.scale(3, 120), length=1500, cap=ctx.scale(7, 400), read_cap=0)
         elif site == 's3b':
             run_site(ctx, site, make, files, n=ctx.scale(4, 80), length=600, cap=ctx.scale(48, 400), read_cap=ctx.scale(4, 100),
                      points_first=True)
